@@ -2,18 +2,19 @@
 
     Go sources mirrored here
       internal/server/message/message.go :
-        HandleSearch (argument handling only: CHARSET, criteria string),
+        HandleSearch / SearchSelectedMailbox (argument handling only: CHARSET, criteria string),
         evaluateSearchCriteria, parseSearchTokens, matchesSearchCriteria,
-        evaluateTokens, isSequenceSet, matchesSequenceSet, matchesUIDSet,
+        evaluateTokens (isSequenceSet, matchesSequenceSet, matchesUIDSet: Model/SeqSet.v),
         unquote, requiresArgument, matchesDate, parseIMAPDate
       (the keys that read the message text are in Model/SearchText.v)
-      internal/server/uid/uid.go : handleUIDSearch   -- a SEPARATE implementation
+      internal/server/uid/uid.go : handleUIDSearch   -- delegates to message.SearchSelectedMailbox
       internal/server/connection.go : handleClient's  parts := strings.Fields(line)
 
     [option] results: [None] is a Go run-time panic.  Since fix bb43d4f (guard before the
     second OR key) no branch of the evaluator produces it any more; the type is kept.  No proofs in this file. *)
 From Coq Require Import String Ascii List Bool Arith NArith ZArith.
 From Raven Require Import Base.GoStr.
+From Raven Require Model.SeqSet.
 Import ListNotations.
 Local Open Scope Z_scope.
 
@@ -26,7 +27,9 @@ Definition date := (Z * Z * Z)%type.
 
 (** message.messageInfo, plus the text parser.ReconstructMessage... returns for it *)
 Record msg := mk_msg {
-  m_seq : Z; m_uid : Z; m_flags : str; m_text : str; m_idate : date }.
+  m_seq : Z; m_uid : Z; m_flags : str; m_text : str; m_idate : date;
+  m_maxseq : Z;   (* messageInfo.maxSeqNum: highest sequence number in the mailbox *)
+  m_maxuid : Z }. (* messageInfo.maxUID: highest UID in the mailbox *)
 
 Definition dq : ascii := """"%char.
 Definition sp : ascii := " "%char.
@@ -54,46 +57,9 @@ Fixpoint pst (s : str) (cur : str) (inq : bool) (inp : Z) : list str :=
   end.
 Definition parse_search_tokens (criteria : str) : list str := pst criteria [] false 0.
 
-(** ** strconv.Atoi with the error dropped ([v, _ := strconv.Atoi(s)]):
-    0 on a syntax error, the nearest int64 on a range error *)
-Definition atoi_val (s : str) : Z :=
-  match atoi s with
-  | Some v => v
-  | None =>
-      let '(neg, d) :=
-        match s with
-        | c :: s' => if Ascii.eqb c "-"%char then (true, s')
-                     else if Ascii.eqb c "+"%char then (false, s') else (false, s)
-        | [] => (false, [])
-        end in
-      match d with
-      | [] => 0
-      | _ => if forallb is_digit d then (if neg then - (max_int64 + 1) else max_int64) else 0
-      end
-  end.
-
-(** ** isSequenceSet *)
-Definition is_sequence_set (token : str) : bool :=
-  if str_eqb token [star] then true
-  else forallb (fun ch => Ascii.eqb ch colon || Ascii.eqb ch star || is_digit ch) token
-       && match token with
-          | c :: _ => is_digit c || Ascii.eqb c star
-          | [] => false
-          end.
-
-(** ** matchesSequenceSet / matchesUIDSet *)
-Definition matches_sequence_set (n : Z) (set : str) : bool :=
-  if negb (contains set [colon]) && negb (str_eqb set [star]) then
-    match atoi set with Some v => v =? n | None => false end
-  else if str_eqb set [star] then true
-  else
-    match split_byte set colon with
-    | [p0; p1] =>
-        let start := if str_eqb p0 [star] then n else atoi_val p0 in
-        let end_ := if str_eqb p1 [star] then 999999 else atoi_val p1 in
-        (start <=? n) && (n <=? end_)
-    | _ => false
-    end.
+(** ** isSequenceSet / matchesSequenceSet / matchesUIDSet: since fix 32751d9 the
+    set matcher is the ONE definition of Model/SeqSet.v (C09):
+    [Model.SeqSet.is_sequence_set], [Model.SeqSet.matches_sequence_set num set largest] *)
 
 (** ** unquote *)
 Definition unquote (s : str) : str :=
@@ -246,84 +212,101 @@ Definition ork (r1 r2 : option bool) (k : option bool) : option bool :=
   | Some false => match r2 with None => None | Some true => k | Some false => Some false end
   end.
 
-(** ** evaluateTokens: the loop over [tokens[i:]]; [rec] is the recursive call
-    of evaluateTokens on the one- or two-token slices built by NOT / OR *)
+(** ** searchKeyLength (fix "NOT and OR take complete search keys"): the number of
+    tokens of the search key that starts the list; [fuel] bounds the recursion,
+    every call is on a strict suffix, so [S (length toks)] is always enough *)
+Fixpoint key_len (fuel : nat) (toks : list str) : nat :=
+  match fuel with
+  | O => 1
+  | S f =>
+      match toks with
+      | [] => 1
+      | t :: rest =>
+          match kw_of (to_upper t) with
+          | Some KwNOT => 1 + key_len f rest
+          | Some KwOR => let n1 := key_len f rest in 1 + n1 + key_len f (skipn n1 rest)
+          | Some KwHEADER => 3
+          | _ => if requires_argument (to_upper t) then 2 else 1
+          end
+      end
+  end.
+Definition search_key_length (toks : list str) : nat := key_len (S (length toks)) toks.
+
+(** [len(token) >= 2 && token[0] == '(' && token[len(token)-1] == ')'] *)
+Definition is_group (token : str) : bool :=
+  match token with
+  | c :: r => match rev r with
+              | c2 :: _ => Ascii.eqb c lpar && Ascii.eqb c2 rpar
+              | [] => false
+              end
+  | [] => false
+  end.
+(** [tokens[i][1 : len(tokens[i])-1]] *)
+Definition group_inner (t : str) : str := match t with _ :: r => removelast r | [] => [] end.
+
+(** list: [if !evaluateTokens(inner) { return false }] *)
+Definition seqk (r : option bool) (k : option bool) : option bool :=
+  match r with None => None | Some true => k | Some false => Some false end.
+
+(** ** evaluateTokens: the loop over [tokens[i:]].  The Go function recurses on
+    the slices of NOT / OR and on the re-tokenised contents of a parenthesised
+    list; [fuel] bounds loop iterations plus nesting and [None] is "out of
+    fuel" (the code has no run-time failure).  [eval_tokens] supplies a fuel
+    that is enough for every input (Proof/SearchTotal.v). *)
 Section Eval.
 Variable T : text_ops.
-Variable rec : list str -> option bool.
 Variable m : msg.
 
-Fixpoint eval_loop (tokens : list str) {struct tokens} : option bool :=
+Fixpoint eval_loop (fuel : nat) (tokens : list str) {struct fuel} : option bool :=
+  match fuel with
+  | O => None
+  | S fu =>
   match tokens with
   | [] => Some true
   | t :: rest =>
       let token := to_upper t in
-      if is_sequence_set token then andk (matches_sequence_set (m_seq m) token) (eval_loop rest)
+      (* parenthesised list: one token; every key of the list must match *)
+      if is_group token then seqk (eval_loop fu (parse_search_tokens (group_inner t))) (eval_loop fu rest)
+      else if Model.SeqSet.is_sequence_set token
+      then andk (Model.SeqSet.matches_sequence_set (m_seq m) token (m_maxseq m)) (eval_loop fu rest)
       else
         match kw_of token with
-        | Some KwALL => eval_loop rest
-        | Some KwANSWERED => andk (has_flag_go (m_flags m) flag_answered) (eval_loop rest)
-        | Some KwDELETED => andk (has_flag_go (m_flags m) flag_deleted) (eval_loop rest)
-        | Some KwDRAFT => andk (has_flag_go (m_flags m) flag_draft) (eval_loop rest)
-        | Some KwFLAGGED => andk (has_flag_go (m_flags m) flag_flagged) (eval_loop rest)
-        | Some KwNEW => andk (has_flag_go (m_flags m) flag_recent && negb (has_flag_go (m_flags m) flag_seen)) (eval_loop rest)
-        | Some KwOLD => andk (negb (has_flag_go (m_flags m) flag_recent)) (eval_loop rest)
-        | Some KwRECENT => andk (has_flag_go (m_flags m) flag_recent) (eval_loop rest)
-        | Some KwSEEN => andk (has_flag_go (m_flags m) flag_seen) (eval_loop rest)
-        | Some KwUNANSWERED => andk (negb (has_flag_go (m_flags m) flag_answered)) (eval_loop rest)
-        | Some KwUNDELETED => andk (negb (has_flag_go (m_flags m) flag_deleted)) (eval_loop rest)
-        | Some KwUNDRAFT => andk (negb (has_flag_go (m_flags m) flag_draft)) (eval_loop rest)
-        | Some KwUNFLAGGED => andk (negb (has_flag_go (m_flags m) flag_flagged)) (eval_loop rest)
-        | Some KwUNSEEN => andk (negb (has_flag_go (m_flags m) flag_seen)) (eval_loop rest)
+        | Some KwALL => eval_loop fu rest
+        | Some KwANSWERED => andk (has_flag_go (m_flags m) flag_answered) (eval_loop fu rest)
+        | Some KwDELETED => andk (has_flag_go (m_flags m) flag_deleted) (eval_loop fu rest)
+        | Some KwDRAFT => andk (has_flag_go (m_flags m) flag_draft) (eval_loop fu rest)
+        | Some KwFLAGGED => andk (has_flag_go (m_flags m) flag_flagged) (eval_loop fu rest)
+        | Some KwNEW => andk (has_flag_go (m_flags m) flag_recent && negb (has_flag_go (m_flags m) flag_seen)) (eval_loop fu rest)
+        | Some KwOLD => andk (negb (has_flag_go (m_flags m) flag_recent)) (eval_loop fu rest)
+        | Some KwRECENT => andk (has_flag_go (m_flags m) flag_recent) (eval_loop fu rest)
+        | Some KwSEEN => andk (has_flag_go (m_flags m) flag_seen) (eval_loop fu rest)
+        | Some KwUNANSWERED => andk (negb (has_flag_go (m_flags m) flag_answered)) (eval_loop fu rest)
+        | Some KwUNDELETED => andk (negb (has_flag_go (m_flags m) flag_deleted)) (eval_loop fu rest)
+        | Some KwUNDRAFT => andk (negb (has_flag_go (m_flags m) flag_draft)) (eval_loop fu rest)
+        | Some KwUNFLAGGED => andk (negb (has_flag_go (m_flags m) flag_flagged)) (eval_loop fu rest)
+        | Some KwUNSEEN => andk (negb (has_flag_go (m_flags m) flag_seen)) (eval_loop fu rest)
         | Some KwNOT =>
-            match rest with
-            | [] => Some false                                  (* i+1 >= len(tokens) *)
-            | k :: rest1 =>
-                if requires_argument (to_upper k) then
-                  match rest1 with
-                  | a :: rest2 => notk (rec [k; a]) (eval_loop rest2)
-                  | [] => notk (rec [k]) (eval_loop rest1)
-                  end
-                else notk (rec [k]) (eval_loop rest1)
-            end
+            (* NOT <search-key>: the complete key *)
+            let n := search_key_length rest in
+            if (length rest <? n)%nat then Some false
+            else notk (eval_loop fu (firstn n rest)) (eval_loop fu (skipn n rest))
         | Some KwOR =>
-            match rest with
-            | k1 :: rest1 =>
-                match rest1 with
-                | x :: rest2 =>                                 (* i+2 < len(tokens) *)
-                    if requires_argument (to_upper k1) then
-                      (* key1 = [k1; x]; then i++; fix bb43d4f: [if i >= len(tokens) { return false }] *)
-                      match rest2 with
-                      | [] => Some false                        (* the second key is missing *)
-                      | k2 :: rest3 =>
-                          if requires_argument (to_upper k2) then
-                            match rest3 with
-                            | a2 :: rest4 => ork (rec [k1; x]) (rec [k2; a2]) (eval_loop rest4)
-                            | [] => ork (rec [k1; x]) (rec [k2]) (eval_loop rest3)
-                            end
-                          else ork (rec [k1; x]) (rec [k2]) (eval_loop rest3)
-                      end
-                    else
-                      if requires_argument (to_upper x) then
-                        match rest2 with
-                        | a2 :: rest3 => ork (rec [k1]) (rec [x; a2]) (eval_loop rest3)
-                        | [] => ork (rec [k1]) (rec [x]) (eval_loop rest2)
-                        end
-                      else ork (rec [k1]) (rec [x]) (eval_loop rest2)
-                | [] => Some false
-                end
-            | [] => Some false
-            end
+            (* OR <search-key1> <search-key2>: two complete keys *)
+            let n1 := search_key_length rest in
+            let n2 := search_key_length (skipn n1 rest) in
+            if (length rest <? n1 + n2)%nat then Some false
+            else ork (eval_loop fu (firstn n1 rest)) (eval_loop fu (firstn n2 (skipn n1 rest)))
+                     (eval_loop fu (skipn (n1 + n2) rest))
         | Some ((KwBCC | KwCC | KwFROM | KwSUBJECT | KwTO | KwBODY | KwTEXT) as k) =>
             match rest with
             | [] => Some false
-            | a :: rest1 => andk (t_header_or_body T m k (unquote a)) (eval_loop rest1)
+            | a :: rest1 => andk (t_header_or_body T m k (unquote a)) (eval_loop fu rest1)
             end
         | Some KwHEADER =>
             match rest with
             | f :: rest1 =>
                 match rest1 with
-                | s :: rest2 => andk (t_header T m (unquote f) (unquote s)) (eval_loop rest2)
+                | s :: rest2 => andk (t_header T m (unquote f) (unquote s)) (eval_loop fu rest2)
                 | [] => Some false
                 end
             | [] => Some false
@@ -331,70 +314,66 @@ Fixpoint eval_loop (tokens : list str) {struct tokens} : option bool :=
         | Some KwKEYWORD =>
             match rest with
             | [] => Some false
-            | a :: rest1 => andk (has_flag_go (m_flags m) (unquote a)) (eval_loop rest1)
+            | a :: rest1 => andk (has_flag_go (m_flags m) (unquote a)) (eval_loop fu rest1)
             end
         | Some KwUNKEYWORD =>
             match rest with
             | [] => Some false
-            | a :: rest1 => andk (negb (has_flag_go (m_flags m) (unquote a))) (eval_loop rest1)
+            | a :: rest1 => andk (negb (has_flag_go (m_flags m) (unquote a))) (eval_loop fu rest1)
             end
         | Some KwLARGER =>
             match rest with
             | [] => Some false
             | a :: rest1 =>
-                andk (match atoi a with Some size => t_size T m size true | None => false end) (eval_loop rest1)
+                andk (match atoi a with Some size => t_size T m size true | None => false end) (eval_loop fu rest1)
             end
         | Some KwSMALLER =>
             match rest with
             | [] => Some false
             | a :: rest1 =>
-                andk (match atoi a with Some size => t_size T m size false | None => false end) (eval_loop rest1)
+                andk (match atoi a with Some size => t_size T m size false | None => false end) (eval_loop fu rest1)
             end
         | Some KwUID =>
             match rest with
             | [] => Some false
-            | a :: rest1 => andk (matches_sequence_set (m_uid m) a) (eval_loop rest1)
+            | a :: rest1 => andk (Model.SeqSet.matches_sequence_set (m_uid m) a (m_maxuid m)) (eval_loop fu rest1)
             end
         | Some KwBEFORE =>
             match rest with [] => Some false
-            | a :: rest1 => andk (matches_date (m_idate m) (unquote a) CBefore) (eval_loop rest1) end
+            | a :: rest1 => andk (matches_date (m_idate m) (unquote a) CBefore) (eval_loop fu rest1) end
         | Some KwON =>
             match rest with [] => Some false
-            | a :: rest1 => andk (matches_date (m_idate m) (unquote a) COn) (eval_loop rest1) end
+            | a :: rest1 => andk (matches_date (m_idate m) (unquote a) COn) (eval_loop fu rest1) end
         | Some KwSINCE =>
             match rest with [] => Some false
-            | a :: rest1 => andk (matches_date (m_idate m) (unquote a) CSince) (eval_loop rest1) end
+            | a :: rest1 => andk (matches_date (m_idate m) (unquote a) CSince) (eval_loop fu rest1) end
         | Some KwSENTBEFORE =>
             match rest with [] => Some false
-            | a :: rest1 => andk (t_sent_date T m (unquote a) CBefore) (eval_loop rest1) end
+            | a :: rest1 => andk (t_sent_date T m (unquote a) CBefore) (eval_loop fu rest1) end
         | Some KwSENTON =>
             match rest with [] => Some false
-            | a :: rest1 => andk (t_sent_date T m (unquote a) COn) (eval_loop rest1) end
+            | a :: rest1 => andk (t_sent_date T m (unquote a) COn) (eval_loop fu rest1) end
         | Some KwSENTSINCE =>
             match rest with [] => Some false
-            | a :: rest1 => andk (t_sent_date T m (unquote a) CSince) (eval_loop rest1) end
-        | None => eval_loop rest                                (* default: unknown key, i++ *)
+            | a :: rest1 => andk (t_sent_date T m (unquote a) CSince) (eval_loop fu rest1) end
+        | None => eval_loop fu rest                                (* default: unknown key, i++ *)
         end
+  end
   end.
 End Eval.
 
-(** recursion depth of evaluateTokens: the slices NOT / OR build have at most
-    two tokens, on which neither NOT (needs a following token but takes no
-    argument) nor OR (needs three tokens) recurses again; depth 3 is never
-    exhausted (Proof/SearchEval.v, [eval_depth_enough]) *)
-Fixpoint eval_tokens_d (d : nat) (T : text_ops) (m : msg) (tokens : list str) : option bool :=
-  match d with
-  | O => None
-  | S d' => eval_loop T (eval_tokens_d d' T m) m tokens
-  end.
-Definition eval_tokens := eval_tokens_d 3.
+(** every token costs its length plus one: bounds iterations and nesting *)
+Definition tokens_measure (toks : list str) : nat := fold_right (fun t n => S (length t) + n)%nat O toks.
+Definition eval_tokens (T : text_ops) (m : msg) (tokens : list str) : option bool :=
+  eval_loop T m (S (tokens_measure tokens)) tokens.
 
 (** matchesSearchCriteria *)
 Definition matches_search_criteria (T : text_ops) (m : msg) (tokens : list str) : option bool :=
   match tokens with [] => Some true | _ => eval_tokens T m tokens end.
 
-(** evaluateSearchCriteria: the first message whose evaluation panics ends the process *)
-Fixpoint collect_seq (T : text_ops) (tokens : list str) (msgs : list msg) : option (list Z) :=
+(** evaluateSearchCriteria: the matching entries of the listing, in listing
+    order (a panicking evaluation would end the command: [None]) *)
+Fixpoint collect_seq (T : text_ops) (tokens : list str) (msgs : list msg) : option (list msg) :=
   match msgs with
   | [] => Some []
   | m :: ms =>
@@ -403,63 +382,47 @@ Fixpoint collect_seq (T : text_ops) (tokens : list str) (msgs : list msg) : opti
       | Some b =>
           match collect_seq T tokens ms with
           | None => None
-          | Some l => Some (if b then m_seq m :: l else l)
+          | Some l => Some (if b then m :: l else l)
           end
       end
   end.
 
 Definition all_str := S_ "ALL".
-Definition evaluate_search_criteria (T : text_ops) (msgs : list msg) (criteria : str) : option (list Z) :=
+Definition evaluate_search_criteria (T : text_ops) (msgs : list msg) (criteria : str) : option (list msg) :=
   let criteria := match trim_space criteria with [] => all_str | _ => criteria end in
   collect_seq T (parse_search_tokens criteria) msgs.
 
-(** ** HandleSearch for an authenticated session with a selected mailbox;
-    [parts] = strings.Fields(line) = tag :: "SEARCH" :: ... *)
+(** ** message.SearchSelectedMailbox (fix "UID SEARCH runs the SEARCH evaluator"):
+    SEARCH and UID SEARCH on the selected mailbox of an authenticated session.
+    [args] = the words after the command name; [by_uid] = report UIDs instead
+    of sequence numbers. *)
 Inductive reply := RBad | RNo | ROk (l : list Z) | RPanic.
 
-Definition handle_search (T : text_ops) (parts : list str) (msgs : list msg) : reply :=
-  if (Z.of_nat (length parts) <? 3) then RBad
+(** [for i := range messages { messages[i].maxSeqNum = len(messages); messages[i].maxUID = messages[len-1].uid }] *)
+Definition fill_max (msgs : list msg) : list msg :=
+  let n := Z.of_nat (length msgs) in
+  let mu := m_uid (last msgs (mk_msg 0 0 [] [] (0, 0, 0) 0 0)) in
+  map (fun m => mk_msg (m_seq m) (m_uid m) (m_flags m) (m_text m) (m_idate m) n mu) msgs.
+
+Definition search_selected (T : text_ops) (args : list str) (by_uid : bool) (msgs : list msg) : reply :=
+  if (length args <? 1)%nat then RBad
   else
-    let with_charset := (3 <? Z.of_nat (length parts)) && str_eqb (to_upper (nth 2 parts [])) (S_ "CHARSET") in
-    let charset := if with_charset then to_upper (nth 3 parts []) else S_ "US-ASCII" in
-    let start := if with_charset then 4%nat else 2%nat in
+    let with_charset := (1 <? length args)%nat && str_eqb (to_upper (nth 0 args [])) (S_ "CHARSET") in
+    let charset := if with_charset then to_upper (nth 1 args []) else S_ "US-ASCII" in
+    let start := if with_charset then 2%nat else 0%nat in
     if with_charset && negb (str_eqb charset (S_ "US-ASCII")) && negb (str_eqb charset (S_ "UTF-8")) then RNo
-    else if (length parts <=? start)%nat then RBad
+    else if (length args <=? start)%nat then RBad
     else
-      match evaluate_search_criteria T msgs (join (skipn start parts) [sp]) with
+      match evaluate_search_criteria T (fill_max msgs) (join (skipn start args) [sp]) with
       | None => RPanic
-      | Some l => ROk l
+      | Some l => ROk (map (if by_uid then m_uid else m_seq) l)
       end.
 
-(** ** uid.handleUIDSearch: [parts] = tag :: "UID" :: "SEARCH" :: ... *)
-Fixpoint uid_range_of (parts : list str) : option str :=
-  match parts with
-  | p :: rest =>
-      match rest with
-      | nxt :: _ => if str_eqb (to_upper p) (S_ "UID") then Some nxt else uid_range_of rest
-      | [] => None
-      end
-  | [] => None
-  end.
+(** HandleSearch: [parts] = strings.Fields(line) = tag :: "SEARCH" :: args *)
+Definition handle_search (T : text_ops) (parts : list str) (msgs : list msg) : reply :=
+  search_selected T (skipn 2 parts) false msgs.
 
-Definition handle_uid_search (parts : list str) (msgs : list msg) : reply :=
-  if (Z.of_nat (length parts) <? 4) then RBad
-  else
-    let criteria := join (skipn 3 parts) [sp] in
-    let cu := to_upper criteria in
-    if str_eqb cu all_str then ROk (map m_uid msgs)
-    else if contains cu (S_ "UID ") then
-      match uid_range_of (fields criteria) with
-      | Some r =>
-          if contains r [colon] then
-            match split_byte r colon with
-            | [a; b] =>
-                let start := atoi_val a in
-                let end_ := atoi_val b in
-                ROk (map m_uid (filter (fun m => (start <=? m_uid m) && (m_uid m <=? end_)) msgs))
-            | _ => ROk []
-            end
-          else ROk []
-      | None => ROk []
-      end
-    else ROk (map m_uid msgs).
+(** uid.handleUIDSearch: [parts] = tag :: "UID" :: "SEARCH" :: args — the same
+    evaluation, UIDs reported *)
+Definition handle_uid_search (T : text_ops) (parts : list str) (msgs : list msg) : reply :=
+  search_selected T (skipn 3 parts) true msgs.
